@@ -115,6 +115,12 @@ func init() {
 		Explanation: "R-CODEC: the writer's decision tree (escape) and the reader's switch (scanCharEscape) are evaluated from the source and compared: named escapes pairwise, hex digit counts from the value interval and padding on each path against the reader's fixed widths, bare-backslash escapes against the reader's default arm, and `meta` against the parser's character-class table. R-ESCALL: Escape cannot bypass escape(). R-UNITS: byte offsets never become rune positions (taint from strings.Index* / range-string keys to []rune indexes and the parser position). " +
 			"That ^Escape(s)$ matches exactly s needs the parser and engine and is NOT decided.",
 	})
+	register(&Prop{
+		ID:    "C20",
+		Rules: []func(*core.Ctx){RSub, RCaseRecur, RAsciiFold, RCiRef, RNegChars},
+		Explanation: "R-SUB on the case transformers (case equivalences reach a class's subtraction), R-CASERECUR (a subtraction is parsed with the same case flag), R-ASCIIFOLD (ASCII-only ignore-case search helpers only on ASCII-tested needles), R-CIREF (reduce clears IgnoreCase on everything but backreferences; refmatch folds both sides alike), R-NEGCHARS. " +
+			"The invariance of match outcomes under case changes is NOT decided.",
+	})
 }
 
 func rDirFoldOnly(c *core.Ctx) { rDirFold(c) }
